@@ -61,7 +61,9 @@ def x86_mem_text(op, v=0):
     s = ""
     if offset is not None:
         if offset == "imd":
-            s += _pick(["8", "-16", "0x20"], v)
+            # displacement-only operands are absolute addresses: non-negative
+            s += _pick(["8", "-16", "0x20"], v) if (base is not None or index is not None) else \
+                _pick(["8", "16", "0x20"], v)
         elif offset == "id":
             s += "sym"
         else:
@@ -150,6 +152,8 @@ def a64_mem_text(op, v=0):
     b = "%s%s" % (base, _pick(["2", "sp" if base == "x" else "3", "11"], v)) if base == "x" else "w3"
     if b == "xsp":
         b = "sp"
+    if (pre or post) and op.index not in ("*", None):
+        raise Unsupported("write-back together with a register index")
     if pre:
         if offset is None:
             offset = "imd"
@@ -200,8 +204,11 @@ def a64_text(mnemonic, operands, v=0):
             t = op.imd_type
             if t in ("int", "*"):
                 parts.append(_pick(["#1", "#0x10", "12"], v))
-            elif t in ("float", "double"):
-                parts.append("#1.5e+0")
+            elif t == "double":
+                parts.append(_pick(["#1.5", "#2.0e+1", "#0.0"], v))
+            elif t == "float":
+                # the grammar's float literal carries an 'f' suffix
+                parts.append(_pick(["#1.5f", "#2.0e+1f"], v))
             else:
                 raise Unsupported("immediate type %r" % t)
         elif isinstance(op, IdentifierOperand):
